@@ -12,7 +12,7 @@
     equivalence ([neq_laws]); instances: [Qeq_bool], and [neq_abs] = what areNearlyEqual computes on values that
     are identical or more than one ulp apart. *)
 From Coq Require Import String List Bool ZArith QArith Qabs Arith Permutation.
-From LC Require Import EqualsDefs EqualsSpec EqualsProofs EqualsSimProofs EqualsCorrect EqualsAsIs EqualsMut EqualsSummary EqualsExt EqualsValuesProofs.
+From LC Require Import EqualsDefs EqualsSpec EqualsProofs EqualsSimProofs EqualsCorrect EqualsAsIs EqualsMut EqualsSummary EqualsExt EqualsValuesProofs EqualsDetectValuesProofs.
 Import ListNotations.
 Local Close Scope Q_scope.
 
@@ -332,3 +332,38 @@ Example C10_equivalence_on_values_nonvacuous :
   /\ eq_entity neq_abs flags_fixed a a = true /\ eq_entity neq_abs flags_fixed a b = false.
 Proof. exact EqualsValuesProofs.equivalence_on_values_nonvacuous. Qed.
 Print Assumptions C10_equivalence_on_values_nonvacuous.
+
+(** ** "Sees every attribute" for ANY comparison of doubles (EqualsDetectValuesProofs.v)
+
+    No assumption on [neq].  Premise (decidable, [equiv_onb]): the exponents / multipliers of the entity, of the mutant
+    and the value the mutation writes ([dbl_emut]) are chain-free.  Then a single mutation of any covered attribute /
+    child at any path, whose written value differs as judged by [neq], makes equals false in both directions. *)
+Theorem C10_equals_detects_on_values : forall neq mu e e',
+  equiv_on neq (dbl_emut mu ++ doubles_e e ++ doubles_e e') ->
+  apply_emut mu e = Some e' -> changes_emut neq mu e = true ->
+  eq_entity neq flags_fixed e e' = false /\ eq_entity neq flags_fixed e' e = false.
+Proof. exact EqualsDetectValuesProofs.equals_detects_on_values. Qed.
+Print Assumptions C10_equals_detects_on_values.
+
+(** the premise cannot be dropped (known finding C10-abs-epsilon) *)
+Theorem C10_detects_on_values_refuted :
+  let e := w_u (1 # 1152921504606846976)%Q in
+  let mu := MutUnits (UDef 0 (DMult (1 # 1180591620717411303424)%Q)) in
+  exists e', apply_emut mu e = Some e' /\ changes_emut Qeq_bool mu e = true
+    /\ eq_entity neq_abs flags_fixed e e' = true.
+Proof. exact EqualsDetectValuesProofs.detects_on_values_refuted. Qed.
+Print Assumptions C10_detects_on_values_refuted.
+
+(** non-vacuity with the code's comparison (not an equivalence): exponent 2 -> 3 of the units of a variable two levels down *)
+Example C10_detects_on_values_nonvacuous :
+  let u := {| u_name := "u"; u_id := ""; u_imp := None; u_impref := "";
+              u_defs := [{| ud_ref := "metre"; ud_prefix := ""; ud_exp := 2; ud_mult := 1; ud_id := "" |}] |} in
+  let v := {| v_name := "x"; v_id := ""; v_units := Some u; v_init := ""; v_iface := "" |} in
+  let e := EComponent (mkc "a" [] [mkc "b" [v] []]) in
+  let mu := MutComponent (CKid 0 (CVar 0 (VUnits (UDef 0 (DExp 3))))) in
+  exists e', apply_emut mu e = Some e'
+    /\ equiv_onb neq_abs (dbl_emut mu ++ doubles_e e ++ doubles_e e') = true
+    /\ changes_emut neq_abs mu e = true
+    /\ eq_entity neq_abs flags_fixed e e' = false /\ eq_entity neq_abs flags_fixed e' e = false.
+Proof. exact EqualsDetectValuesProofs.detects_on_values_nonvacuous. Qed.
+Print Assumptions C10_detects_on_values_nonvacuous.
